@@ -433,7 +433,7 @@ def r5_9(rep):
               "parse_macro runs after the function-like exit", b.loc(evals[0]) if evals else b.loc(b.root))
 
 
-@RULES.rule("R5.10", "a variable only gets an evaluated value when libclang's evaluator and the emitted type can carry it", floor=2)
+@RULES.rule("R5.10", "a variable only gets an evaluated value when libclang's evaluator and the emitted type can carry it", floor=3)
 def r5_10(rep):
     """libclang hands integer results over as `long long` / `unsigned long long` and floating results as `double`.  A 128-bit
     integer constant is truncated on the way (`const unsigned __int128 big = (unsigned __int128)1 << 100;` became `pub const big:
@@ -444,6 +444,8 @@ def r5_10(rep):
     prog = rep.prog
     b = rep.need(prog.impl_fn("parse::ClangSubItemParser", "ir::var::Var", "parse"), "<Var as ClangSubItemParser>::parse")
     ints = [c for c in b.calls(lambda n: n["k"] == "MCall" and (n.get("callee") or n.get("resolved") or "").endswith("clang::EvalResult::as_int"))]
+    # bindgen's own literal parser is a 64-bit carrier as well
+    ints += [c for c in b.calls(lambda n: n["k"] == "Call" and (n.get("callee") or "").endswith("var::get_integer_literal_from_cursor"))]
     flts = [c for c in b.calls(lambda n: n["k"] == "MCall" and (n.get("callee") or n.get("resolved") or "").endswith("clang::EvalResult::as_double"))]
     rep.need(ints and flts, "the as_int / as_double evaluations of variable initialisers in Var::parse")
 
@@ -480,3 +482,60 @@ def r5_10(rep):
         rep.check(ok, "wide-float-not-evaluated", "only float / double constants are evaluated" if ok else
                   "`as_double()` is asked for every floating kind: a `long double` constant gets an f64 literal while its type is emitted as a "
                   "16-byte integer blob", b.loc(c))
+
+
+
+NARROW_CHAR_KINDS = {"CXType_Char_S", "CXType_SChar", "CXType_Char_U", "CXType_UChar"}
+
+
+@RULES.rule("R5.11", "a string constant is taken from libclang only for the one-byte character kinds, named one by one", floor=1)
+def r5_11(rep):
+    """`clang_EvalResult_getAsStr` returns the bytes of the literal up to the first NUL.  That is the string for `char` kinds; for
+    `L"hi"` it is `h` (the next byte of the first code unit is 0).  In a C translation unit `wchar_t`, `char16_t`, `char32_t` are
+    typedefs of plain integer types, so they cannot be recognised and excluded by kind: the arm that reads the bytes has to list the
+    narrow kinds (a catch-all there emitted `pub const WIDE: &[u8; 2] = b"h\\0";` for `L"hi"` in a seeded change)."""
+    from hir import pat_variants as _pv
+    prog = rep.prog
+    b = rep.need(prog.fn("clang::EvalResult::as_literal_string"), "clang::EvalResult::as_literal_string")
+    gets = [c for c in b.calls(lambda n: n["k"] == "Call" and (n.get("callee") or "").endswith("clang_EvalResult_getAsStr"))]
+    rep.need(gets, "clang_EvalResult_getAsStr in as_literal_string")
+    for c in gets:
+        arms = [(g[0], g[1]) for pol, kind, g in b.guards(c) if kind == "arm"]
+        ok = False
+        why = "not inside a match over the character kind"
+        for m, i in arms:
+            vs = {v.split("::")[-1] for v in _pv(m["arms"][i]["pat"])}
+            if vs and vs <= NARROW_CHAR_KINDS:
+                ok = True
+                why = "read for %s only" % ", ".join(sorted(vs))
+            elif vs:
+                why = "read for %s" % ", ".join(sorted(vs))
+        rep.check(ok, "narrow-kinds-listed", why if ok else
+                  "the literal's bytes are %s: a wide literal in C (where wchar_t / char16_t / char32_t are typedefs of int types) is cut at "
+                  "its first zero byte and emitted as a byte string" % why, b.loc(c))
+
+
+VALUE_PRESERVING_WRAPPERS = {"CXCursor_UnexposedExpr", "CXCursor_ParenExpr"}
+
+
+@RULES.rule("R5.12", "the literal fallback only looks through wrappers that cannot change the value", floor=1)
+def r5_12(rep):
+    """`get_integer_literal_from_cursor` is used when libclang's evaluator gives nothing.  It may descend through the expression
+    nodes libclang leaves unexposed and through parentheses; an explicit cast converts (`(unsigned char)300` is 44,
+    `(unsigned)-1` is 4294967295), so descending through one hands the operand's value to the constant (seeded change)."""
+    from hir import pat_variants as _pv
+    prog = rep.prog
+    b = rep.need(prog.fn("ir::var::get_integer_literal_from_cursor"), "ir::var::get_integer_literal_from_cursor")
+    rec = [c for c in b.calls(lambda n: n["k"] == "Call" and (n.get("callee") or "").endswith("var::get_integer_literal_from_cursor"))]
+    rep.need(rec, "the recursive call of get_integer_literal_from_cursor")
+    for c in rec:
+        kinds = None
+        for pol, kind, g in b.guards(c):
+            if kind == "arm":
+                vs = {v.split("::")[-1] for v in _pv(g[0]["arms"][g[1]]["pat"])}
+                if any(v.startswith("CXCursor_") or v == "_" for v in vs):
+                    kinds = vs
+        ok = kinds is not None and kinds <= VALUE_PRESERVING_WRAPPERS
+        rep.check(ok, "descends-through-wrappers-only", "descends through %s" % ", ".join(sorted(kinds or [])) if ok else
+                  "the fallback descends through %s: a cast changes the value, the literal below it is not the constant's value"
+                  % ", ".join(sorted(kinds or ["an unconditional call"])), b.loc(c))
